@@ -51,7 +51,12 @@ def st_case(draw):
                           ))
         if kind == 30000:
             evs[-1]["tags"].append(["d", str(i)])
-    return {"backend": draw(st.sampled_from(["kv", "sql"])), "T": T, "events": evs}
+    # further passes of the SAME collector, each preceded by re-submissions of earlier events
+    more = []
+    for _ in range(draw(st.sampled_from([0, 0, 1, 2]))):
+        more.append({"dt": draw(st.sampled_from([0, 1, 5])),
+                     "resubmit": draw(st.lists(st.integers(0, n - 1), max_size=3, unique=True))})
+    return {"backend": draw(st.sampled_from(["kv", "sql"])), "T": T, "events": evs, "more": more}
 
 
 def verdict(ev, T):
@@ -118,16 +123,20 @@ class GC(Sub):
             await gc.run_once()
             await rig.settle()
             after = await rig.dump()
-            verdicts = {}
-            for i, ev in before.items():
-                vd = verdict(ev, T)
-                verdicts[i] = vd
-                if vd == "go" and i in after:
-                    viol.append(V("%s-not-collected:%s" % (backend, why(ev, T)), "expired/ephemeral events are removed",
-                                  T=T, event=ev))
-                if vd == "stay" and i not in after:
-                    viol.append(V("%s-wrongly-collected:%s" % (backend, why(ev, T)),
-                                  "GC removes no event that is not expired or ephemeral", T=T, event=ev))
+            for rnd in case.get("more", []):
+                labels.append("multi-pass")
+                verdicts = self.judge(backend, before, after, T, viol)
+                if viol:
+                    break
+                for j in rnd["resubmit"]:
+                    await rig.add(case["events"][j])
+                before = await rig.dump()
+                T = T + rnd["dt"]
+                clock.now = float(T) + 0.5
+                await gc.run_once()
+                await rig.settle()
+                after = await rig.dump()
+            verdicts = self.judge(backend, before, after, T, viol)
             for i in after:
                 if i not in before:
                     viol.append(V("%s-gc-created-event" % backend, "GC adds nothing", id=i))
@@ -160,6 +169,23 @@ class GC(Sub):
         for vd in set(verdicts.values()):
             labels.append("has-" + vd)
         return Result(viol, nt, labels)
+
+
+def _judge(self, backend, before, after, T, viol):
+    verdicts = {}
+    for i, ev in before.items():
+        vd = verdict(ev, T)
+        verdicts[i] = vd
+        if vd == "go" and i in after:
+            viol.append(V("%s-not-collected:%s" % (backend, why(ev, T)), "expired/ephemeral events are removed",
+                          T=T, event=ev))
+        if vd == "stay" and i not in after:
+            viol.append(V("%s-wrongly-collected:%s" % (backend, why(ev, T)),
+                          "GC removes no event that is not expired or ephemeral", T=T, event=ev))
+    return verdicts
+
+
+GC.judge = _judge
 
 
 def why(ev, T):
